@@ -287,12 +287,12 @@ def probes(ck):
         if k["id"] == "N13":
             case = {"limit": -1, "ops": [
                 {"op": "add", "atom": {"p": 1, "args": [0]}, "iv": [ts(MIN64), ts(5)]},
-                {"op": "add", "atom": {"p": 1, "args": [0]}, "iv": [ts(3), ts(9)]},
+                {"op": "add", "atom": {"p": 1, "args": [0]}, "iv": [ts(MIN64), ts(9)]},
                 {"op": "coalesce", "p": 1, "t": 1},
                 {"op": "all", "pat": {"p": 1, "args": [None]}}]}
             out = ck.run_go("c13", [case])[0]
             if "out" in out and len(out["out"][3]) == 2:
-                ck.known("N13 coalescing leaves overlapping intervals when a start is MinInt64 (Start-1 wraps)")
+                ck.known("N13 coalescing leaves two overlapping intervals that both start at MinInt64 separate (Start-1 wraps)")
         if k["id"] == "F8":
             out = ck.run_go("c13_f8", [{}])[0]
             if out.get("out") is True:
